@@ -69,12 +69,26 @@ def spaces(tier):
                         for f in itertools.product(range(2), repeat=4):
                             yield ("tb", g, h, f)
 
+        # five rows in three combinations of sizes 2, 2, 1: a single-member combination whose every component also occurs in a larger
+        # combination (it must be left out as a combination, not column by column); first column in non-decreasing order
+        for g in itertools.product(range(2), repeat=5):
+            if list(g) != sorted(g):
+                continue
+            for h in itertools.product(range(2), repeat=5):
+                cnt = {}
+                for k in zip(g, h):
+                    cnt[k] = cnt.get(k, 0) + 1
+                if sorted(cnt.values()) == [1, 2, 2]:
+                    for f in itertools.product(range(2), repeat=5):
+                        if f[0] == 0:
+                            yield ("tb", g, h, f)
+
     return [
         Space("four-and-five-groups", gen_four_groups, "tables of 4..5 rows in 4..5 groups (5 group patterns x every feature pattern)"),
         Space("one-group-column-one-feature", gen_one, "all tables of 2..4 (quick) / 2..5 (thorough) rows, group key in 3 keys, feature in 2 sequences; keys spelled as strings and ints; 4 weightings; 3 bases; bins in {edges, 0}", shards=64),
         Space("two-feature-columns", gen_two_feat, "all tables of 2..3(4) rows, 2 group keys, two binary feature columns (joint statistics)"),
         Space("numeric-feature-with-missing-cells", gen_missing, "all tables of 2..4(5) rows, 2 group keys, a numeric feature column over {1.5, 2.5, missing} with at least one missing cell; `on` given as a one-element list (joint form: a missing cell is one value)"),
-        Space("two-grouping-columns", gen_two_by, "all tables of 2..3(4) rows, two binary grouping columns, one feature"),
+        Space("two-grouping-columns", gen_two_by, "all tables of 2..3(4) rows, two binary grouping columns, one feature; 4 rows in two combinations of two; 5 rows in combinations of sizes 2,2,1 (first column sorted, first feature fixed)"),
     ]
 
 
